@@ -179,7 +179,7 @@ func (c *ecCtx[P, B, S]) alterations(b *ecBase, msg []byte, fullBits bool) []ecA
 	add("key/foreign", b.r, b.s, v, 3, msg)
 	add("key/foreign-v-omitted", b.r, b.s, nil, 3, msg)
 	add("key/identity", b.r, b.s, v, 4, msg)
-	for _, ma := range messageAlterations(msg, 0) {
+	for _, ma := range messageAlterations(msg, 0, engine.Thorough()) {
 		add(ma.label, b.r, b.s, v, 0, ma.msg)
 		if engine.Thorough() || ma.label == "msg/truncate" || ma.label == "msg/flip[0].0" || strings.HasPrefix(ma.label, "msg/append") {
 			add(ma.label+"+v-omitted", b.r, b.s, nil, 0, ma.msg)
